@@ -77,4 +77,46 @@ def secretPaths : List Path := (Gen.C35.leaves.filter isSecretLeaf).map (·.yaml
 
 def redactedPaths : List Path := Gen.C35.redactedPaths
 
+/-! ### "never changes the original": a memory model with aliasing
+
+  A Go `Config` value holds its scalar/struct fields by value and its lists by reference (slice
+  header → backing array).  `cp := *c` copies the fields and the slice HEADERS, so the copy shares
+  the backing arrays until a list is cloned.  Redacted() then writes `redact(&…)` into fields of
+  the copy and into ELEMENTS of the lists it ranges over.  The model keeps exactly that: a store
+  of backing arrays, configuration values that point into it, and the three lists whose elements
+  are written (peers, listeners, socks5.auth.users). -/
+
+/-- fields of one list element / of the top-level struct, by yaml path -/
+abbrev Fields := Path → Bytes
+
+structure Store where
+  arrays : Nat → List Fields      -- backing arrays by address
+  next : Nat                      -- addresses `< next` are allocated
+
+structure CfgVal where
+  top : Fields                    -- leaves outside the three lists (held by value)
+  lists : Nat → Nat               -- slice headers (list number → address of the backing array)
+
+/-- `append([]T(nil), xs...)`: allocate a fresh array holding a copy. -/
+def Store.clone (m : Store) (a : Nat) : Store × Nat :=
+  ({ arrays := fun x => if x = m.next then m.arrays a else m.arrays x, next := m.next + 1 }, m.next)
+
+/-- `for i := range xs { redact(&xs[i].f) … }` on the array at `a`. -/
+def Store.redactArray (m : Store) (red : List Path) (a : Nat) : Store :=
+  { m with arrays := fun x => if x = a then (m.arrays a).map (fun e p => if p ∈ red then redact (e p) else e p)
+                              else m.arrays x }
+
+/-- One list: clone it first (or not — `detach = false` is the aliasing bug), then redact in place. -/
+def stepList (red : List Path) (detach : Bool) (st : Store × CfgVal) (i : Nat) : Store × CfgVal :=
+  let (m, cp) := st
+  let (m1, a) := if detach then m.clone (cp.lists i) else (m, cp.lists i)
+  let cp1 : CfgVal := { cp with lists := fun j => if j = i then a else cp.lists j }
+  (m1.redactArray red a, cp1)
+
+/-- Redacted() up to (not including) the final YAML deep copy, which only reads: `n` lists have
+    elements written. -/
+def redactedMem (red : List Path) (detach : Nat → Bool) (n : Nat) (m : Store) (c : CfgVal) : Store × CfgVal :=
+  let cp : CfgVal := { c with top := fun p => if p ∈ red then redact (c.top p) else c.top p }   -- cp := *c; redact(&cp.X)
+  (List.range n).foldl (fun st i => stepList red (detach i) st i) (m, cp)
+
 end MM.C35
